@@ -355,6 +355,30 @@ theorem c02_missing_downstream_arrives_one_level_per_pass (wall : Int → Int) (
     toLocal wall s n = { s with a := sendNodeState s.a n (wall s.clk), clk := s.clk + 1 } :=
   toLocal_one_level wall s n hn2 hn3 h
 
+/-- … and the transfer leaves the upstream store a store: edges still form a ranked graph with one row per identity, and every
+    stored hash — of the new edges and of everything above them — is the Merkle hash of the content (`Inv`, the invariant of C03),
+    with no point of any node or edge moved backwards (`StLe`). -/
+theorem c02_missing_subtree_keeps_store_invariant (wall : Int → Int) (s : Pair) (n : NE) (ha : Inv s.a) (hb : Inv s.b) :
+    Inv (toRemote wall s n).b ∧ StLe s.b (toRemote wall s n).b :=
+  (toRemote_fwd wall s s n (pfwd_refl s ha hb)).2
+
+/-- **C02 (the pass itself, for a node upstream lacks).** `syncNode(parent, id)` for a local node — not the root device —
+that the upstream store has no edge into IS the transfer of `c02_missing_subtree_is_sent` (for any positive budget): the pass
+finds the node locally, finds nothing upstream, and calls `sendNodesRemote`. With the premises of that theorem (here with
+`P` the node's own parent) the conclusions hold for the state the pass returns: the whole live subtree is upstream with the
+local rows, the local store untouched, nothing else changed. -/
+theorem c02_pass_sends_a_node_missing_upstream (wall : Int → Int) (fuel : Nat) (s : Pair) (hs : SrcOk s.a) (e : Edge) (he : e ∈ s.a.edges)
+    (hp1 : e.up ≠ rootS) (hp2 : e.up ≠ allS) (hP1 : e.up ≠ []) (hP2 : e.up ≠ noneS) (hPb : ¬ Below (liveK s.a) e.down e.up)
+    (hfresh : ∀ m, Below (liveK s.a) e.down m → Fresh s.b m) :
+    (syncNode wall (fuel + 1) s e.up e.down).a = s.a ∧
+    (∀ m, Below (liveK s.a) e.down m → ptsOf (syncNode wall (fuel + 1) s e.up e.down).b m = ptsOf s.a m) ∧
+    (∃ k, eptsOf (syncNode wall (fuel + 1) s e.up e.down).b e.up e.down = sentE (eptsOf s.a e.up e.down) (wall k)) ∧
+    (∀ c ∈ liveEdges s.a, Below (liveK s.a) e.down c.up →
+      ∃ k, eptsOf (syncNode wall (fuel + 1) s e.up e.down).b c.up c.down = sentE (eptsOf s.a c.up c.down) (wall k)) ∧
+    (∀ y, ¬ Below (liveK s.a) e.down y → Same s.b (syncNode wall (fuel + 1) s e.up e.down).b y) := by
+  rw [syncNode_missing wall fuel s hs e he hp1 hp2 (hfresh e.down (Below.refl _ _))]
+  exact toRemote_sent wall s hs e e.up he hP1 hP2 hp1 hPb hfresh
+
 /-- the child case of `syncChildren` is the instance `P = e.up` (the record sent is the one `getNodes` returned) -/
 example (s : Pair) (e : Edge) : ({ neOf s.a e with parent := e.up } : NE) = neOf s.a e := rfl
 
